@@ -13,7 +13,7 @@ def constant_speed_cases(tier):
     """(label, builder(start, direction) -> (shape, args, exp), true path length, radius)"""
     thorough = tier == "thorough"
     out = []
-    radii = [1.0, 10.0, 100.0, 1000.0]
+    radii = [0.05, 1.0, 10.0, 100.0, 1000.0]
     sweeps = [30, 90, 180, 360] + ([3, 270] if thorough else [])
     for R in radii:
         for sw in sweeps:
@@ -127,7 +127,8 @@ def run(tier, seed):
     res = Result("exploration")
     cases = constant_speed_cases(tier)
     items = []
-    res_list = [1.0, 0.1, 20.0, 40.0] + ([0.01, 12.5] if tier == "thorough" else [])      # resolutions above 10 units: large-format work
+    # resolutions above 10 units: large-format work; below 0.005: inch work (0.004 in = 0.1 mm) and fine engraving
+    res_list = [1.0, 0.1, 20.0, 40.0, 0.004] + ([0.01, 12.5, 0.0005] if tier == "thorough" else [])
     for idx, (label, b, L, R) in enumerate(cases):
         for r in res_list:
             ratio = L / r
